@@ -16,6 +16,11 @@ CLAIMS = {
          "Generated histories over the full writer API and configuration space are checked against a sequential model after every commit / abort / rollback / merge / reopen, including opstamp laws; concurrent producers are checked by per-producer sequential replay and opstamp-range disjointness.",
          "thread interleavings are sampled (steered by the flush-every-N and pause-point hooks), never enumerated; document shapes are small (uid, group, 0-4 words, a number)",
          "DESIGN.md §3 C02"),
+ "C04": ("translation_validation",
+         "per-merge translation validation: canonical dump of the merged segment vs the dumps of its sources on generated indexes (proptest), plus gated merge-thread schedules judged against the sequential model",
+         "Every generated merge (choice and order of sources, deletes, stacked or re-compressed stores, sorted or unsorted) is validated as a translation of its inputs: per document stored fields, fast values, field norms, term frequencies and positions, and per term doc_freq; merges held at a generated storage operation while deletes are committed, rollbacks, delete-all and gc run are judged against the sequential model and the no-orphan predicate.",
+         "the dump reads through tantivy's public readers (SegmentReader, store, fast fields, postings); a defect common to reader and merger that preserves dump equality is invisible; schedules: merge thread pre-empted at storage operations only",
+         "DESIGN.md §3 C04"),
  "C05": ("exploration",
          "concurrent reader/writer histories with bounded holds at storage operations, fingerprints judged against the commit models on a logical clock (proptest)",
          "A writer thread executes a generated history while 1-3 reader threads (same Index and a second Index::open) reload and fingerprint searchers and keep some alive; every observation must equal exactly one commit's model within the logical-time window, non-decreasing per reader, and held searchers never change (also after gc and writer shutdown).",
